@@ -560,10 +560,10 @@ fn verif_c03_validate() {
 // One script for all helpers, or one per helper. Response: per helper one character per record
 // (`o` accepted, `f` DZKP validation failed, `e` other error, `-` never validated), helpers joined by `,`.
 
-const ORDER_GATES: [&str; 3] = ["a", "b", "c"];
+pub const ORDER_GATES: [&str; 3] = ["a", "b", "c"];
 
 /// `zkp_multiply` minus its last step: the intermediates are returned instead of being pushed.
-async fn multiply_unpushed<const N: usize>(
+pub async fn multiply_unpushed<const N: usize>(
     ctx: DZKPUpgradedMaliciousContext<'_, NotSharded>,
     record_id: RecordId,
     a: &Replicated<Boolean, N>,
